@@ -14,7 +14,7 @@ NSHARDS = {"quick": 32, "thorough": 64}
 BUDGET_S = {"quick": 200, "thorough": 1800}
 EXTRA_BUILDS = {"thorough": ["rel"]}  # used by the generic release-build stage in core
 MIN_HITS = {
-    'quick': {"der_rt": 1312, "last_byte_is_flag": 555, "last_byte_not_flag": 756, "der_plus_flag": 15680, "compact_rt": 8960, "recover": 192, "der_bad": 10224, "compact_bad": 912},
+    'quick': {"der_rt": 1312, "last_byte_is_flag": 552, "last_byte_not_flag": 760, "der_plus_flag": 15680, "compact_rt": 8960, "recover": 192, "der_bad": 10224, "compact_bad": 912},
     'thorough': {"der_rt": 103680, "last_byte_is_flag": 40433, "der_plus_flag": 1128960, "compact_rt": 645120, "recover": 23040, "der_bad": 168960, "compact_bad": 145920},
 }
 FLAGS = [0x40, 0x01, 0x02, 0x03, 0x80, 0x41, 0x42, 0x43, 0xC1, 0xC2, 0xC3, 0x81, 0x82, 0x83]
@@ -56,6 +56,9 @@ def cases(ctx):
     for _ in range(600 if t else 12):
         x = r.choice([1, 2, ec.N - 1, ec.N - 2]) if r.random() < 0.3 else r.randrange(1, ec.N)
         yield {"k": "recover", "key": "%064x" % x, "compressed": r.random() < 0.5, "msg": gen.rbytes(r, r.choice([0, 1, 32, 100])).hex(), "hash": r.choice(["sha256", "sha256d"]), "mode": r.choice(["det", "det", "k", "rand"]), "reverse_k": r.random() < 0.3, "nonce": "%064x" % r.randrange(1, ec.N)}
+    # signatures made over a crafted 32-byte digest (sign_digest): values at / above the group order, zero, all ones, leading zeros
+    for dg in [ec.N, ec.N + 1, ec.N - 1, (1 << 256) - 1, 0, 1, 1 << 255, (1 << 256) - ec.N, 0xFF << 240][(ctx.shard % 3) :: 3] + ([r.getrandbits(256) | (1 << 255)] if t else []):
+        yield {"k": "recover_digest", "key": "%064x" % r.randrange(1, ec.N), "compressed": r.random() < 0.5, "digest": "%064x" % dg}
     for _ in range(100 if t else 3):
         rr, ss = synth_rs(r, r.choice(FLAGS + NONFLAGS))
         good = ec.der_encode(rr, ss)
@@ -117,6 +120,24 @@ def judge(ctx, case):
             ctx.ev()
             if st.get("ok", {}).get("compact_with") != c.hex():
                 ctx.viol("to_compact_bytes(explicit recovery info) has the wrong header byte", {"hdr": hdr, "got": str(st.get("ok", {}).get("compact_with"))[:2]})
+    elif k == "recover_digest":
+        ctx.hit("recover_from_crafted_digest")
+        ctx.nontrivial()
+        x = int(case["key"], 16)
+        d = bytes.fromhex(case["digest"])
+        if int.from_bytes(d, "big") >= ec.N:
+            ctx.hit("digest>=group_order")
+        s = ctx.call({"op": "ecdsa_sign", "mode": "digest", "key": case["key"], "compressed": case["compressed"], "msg": case["digest"], "hash": "none"})
+        ctx.ev()
+        if "ok" not in s:
+            ctx.note("sign_digest refuses this digest (C05 decides whether it may)")
+            return
+        want = ec.ser(ec.mul_g(x), case["compressed"]).hex()
+        for inner in (False, True):
+            rd = ctx.call({"op": "recover", "compact": s["ok"]["compact"], "digest": case["digest"], "inner": inner})
+            ctx.ev()
+            if rd.get("ok", {}).get("pub") != want:
+                ctx.viol("recovery from the digest the signature was made over does not return the signer's key (%s%s)" % ("digest value at or above the group order" if int.from_bytes(d, "big") >= ec.N else "digest below the group order", ", get_public_key_from_digest" if inner else ""), {"digest": case["digest"], "got": str(rd.get("ok", rd.get("err", rd.get("panic"))))[:200]})
     elif k == "recover":
         ctx.hit("recover")
         x = int(case["key"], 16)
